@@ -6,7 +6,7 @@ ids = [json.loads(l)['id'] for l in open(os.path.join(root, 'properties.jsonl'))
 
 S_NOTE = ("Trusted base: the vsched scheduler model of Go's sync/atomic/channel/select/context semantics (engine/shim), the vinstr "
           "source rewriter, and the assumption that code between two visible operations is atomic - itself checked by the "
-          "happens-before race detector on every struct field of the package in every explored execution. Sequentially consistent "
+          "happens-before race detector on every struct field of the package in every explored execution: a race is a violation for the properties that state race freedom (C12; C14 for Status()), for the others the racy location is promoted to a visible operation and the scenarios are explored again, so the oracle decides on the interleavings of the racing statements. Sequentially consistent "
           "atomics; no weak-memory effects. The scheduler model is cross-checked against the real runtime (tools/conformance.sh: 19 micro-programs, native outcomes are a subset of the explored ones) and the sleep-set reduction against the plain search (tools/sleepdiff.sh). Scenarios are small (1-2 lanes, 2-5 tasks); beyond the reported bound the argument is the small-scope hypothesis.")
 
 LOG_NOTE = ("Trusted base: the ordered JSON reader (encoding/json tokens) / the key=value tokenizer, the reference builder of the expected "
@@ -16,7 +16,7 @@ LOG_NOTE = ("Trusted base: the ordered JSON reader (encoding/json tokens) / the 
 CHECKS = {
  'C06': dict(engine='vsched', cat='model_checking', ref='4 (C06), 2.2',
    technique='stateless model checking of the instrumented real code: controlled scheduler, deviation-bounded (preemption / delay) DFS with happens-before state cache',
-   text='Every interleaving (unbounded on 1-lane scenarios, bounded by preemptions/delays on 2-lane ones) of producers, queue goroutines, workers, timers and a canceller over the real tasklane code; in every quiescent state: accepted tasks started exactly once, rejected tasks never, no double start after cancel.',
+   text='Every interleaving (unbounded on 1-lane scenarios, bounded by preemptions/delays on 2-lane ones) of producers, queue goroutines, workers, timers and a canceller over the real tasklane code; in every quiescent state: accepted tasks started exactly once, rejected tasks never (errors matched with errors.Is), no double start after cancel. The lane checks share one harness; each reports only the clauses its own statement owns.',
    note=S_NOTE),
  'C07': dict(engine='vsched', cat='model_checking', ref='4 (C07), 2.2',
    technique='stateless model checking of the instrumented real code: controlled scheduler, cancellation/deadline as an ordinary thread operation landing at every step',
@@ -28,7 +28,7 @@ CHECKS = {
    note=S_NOTE),
  'C14': dict(engine='vsched', cat='model_checking', ref='4 (C14), 2.2',
    technique='stateless model checking of the instrumented real code plus vector-clock happens-before race detection on every TaskLane field',
-   text='Panicking tasks with values of different dynamic types on several workers, Status() polled concurrently: every explored interleaving is checked for field-level data races, for pending counts inside [0, L*(Q+1)] and, at rest, for PendingTask == accepted - started and LastPanic being one of the panicked values.',
+   text='Panicking tasks with values of different dynamic types on several workers, Status() polled concurrently: every explored interleaving is checked for field-level data races involving Status(), for pending counts inside [0, L*(Q+1)] and, at rest, for PendingTask == accepted - started and LastPanic being one of the panicked values; after panics on every worker two tasks that return only when both run at once must still complete (every worker keeps serving, whichever goroutine plays it).',
    note=S_NOTE),
  'C12': dict(engine='vsched', cat='model_checking', ref='4 (C12), 2.2',
    technique='stateless model checking of the instrumented real code (list size reduced to 3 so the list->maps migration is reachable) plus vector-clock race detection on every IPv4Filter field',
@@ -36,7 +36,7 @@ CHECKS = {
    note=S_NOTE + ' netutil is rebuilt with listSize=3 by constant override; if the constant disappears the check reports INFRA-ERROR rather than passing vacuously.'),
  'C19': dict(engine='vsched', cat='model_checking', ref='4 (C19), 2.2',
    technique='stateless model checking of the instrumented real code: call sequences are free choices enumerated together with all writer/consumer interleavings (unbounded)',
-   text='All 1036 call sequences (<=3 calls (thorough 4) x Write/WriteString x full/short/failing underlying writer x StringWriter or not x 4-byte or 70 000-byte payload) crossed with all interleavings of the writer and a consumer draining Status(), plus a wide-but-shallow scenario of 40 writes with a late consumer; invariant at every scheduling step: the writer is never disabled inside Write/WriteString; oracles: Size() equals the sum reported, received values are non-decreasing prefix sums, after Close the last value is the total and the channel is closed.',
+   text='All 1036 call sequences (<=3 calls (thorough 4) x Write/WriteString x full/short/failing underlying writer x StringWriter or not x 4-byte or 70 000-byte payload) crossed with all interleavings of the writer and a consumer draining Status(), plus a wide-but-shallow scenario of 40 writes with a late consumer; invariant at every scheduling step: the writer is never disabled inside Write/WriteString; oracles: Size() equals the sum the wrapped writer reported (however the bytes were handed to it), received values are non-decreasing and each is a total after some completed call of the wrapped writer, after Close the last value is the total and the channel is closed.',
    note=S_NOTE),
  'C02': dict(engine='vsched', cat='model_checking', ref='4 (C02), 2.2',
    technique='stateless model checking of the instrumented real logger: all interleavings at pool get/put, outMu and inside the destination Write, differential oracle against the same record logged alone',
@@ -44,31 +44,31 @@ CHECKS = {
    note=S_NOTE),
  'C11': dict(engine='vstate', cat='model_checking', ref='4 (C11), 2.3',
    technique='explicit-state BFS whose transition function is the real Add/Remove call, to a fixpoint with list size 3 and to depth 3-4 around the real switch at 256, against a set-of-prefixes reference model',
-   text='Every reachable state of the filter over an alphabet of 7 nesting/colliding ranges plus invalid arguments (list size rebuilt to 3: BFS to a fixpoint), and all sequences of depth 3 (quick) / 4 (thorough) from 16 prefilled configurations at the real list size (index 253..256, holes first/middle/last); in every state Contains is compared with the model on first/last/outside-neighbour probes in 4-byte and 16-byte form; rejected arguments must leave the canonical dump unchanged.',
+   text='Every reachable state of the filter over an alphabet of 7 nesting/colliding ranges plus invalid arguments (list size rebuilt to 3: BFS to a fixpoint), and all sequences of depth 3 (quick) / 4 (thorough) from 16 prefilled configurations at the real list size (index 253..256, holes first/middle/last); in every state Contains is compared with the model on first/last/outside-neighbour probes in 4-byte and 16-byte form; rejected arguments (errors.Is ErrInvalidIPv4CIDR) are applied in every state and must leave every later membership answer unchanged.',
    note='Trusted base: the reflective canonical dump (complete, so states are never merged wrongly), the prefix-set model, the constant override of listSize for the small variant. Alphabet of 7 ranges + 5 invalid shapes; prefix lengths 0,1,8,9,12,32.'),
  'C04': dict(engine='vstate', cat='model_checking', ref='4 (C04), 2.3',
    technique='exhaustive enumeration of route tables (states) built on the real Mux in every registration order x all request paths/methods of a small alphabet dispatched through ServeHTTP (transitions), judged by an independent reference router',
-   text='All tables of <=2 (quick) / <=3 (thorough) routes over 37 patterns x 3 methods (single-route tables: 162 patterns x 5 methods), every registration order (canonical trie dumps must be equal), 3105 request paths x 5 method strings each; exactly one handler exactly once, no panic, the handler the documented precedence selects, its RouteInfo, and every parameter lookup bound to the exact path text.',
+   text='All tables of <=2 (quick) / <=3 (thorough) routes over 37 patterns x 3 methods (single-route tables: 162 patterns x 5 methods), every registration order (each judged against the reference router), registrations that are rejected (recovered by the caller, the Mux used on) included, 3105 request paths x 5 method strings each; exactly one handler exactly once, no panic, the handler the documented precedence selects, its RouteInfo, and every parameter lookup bound to the exact path text.',
    note='Trusted base: the reference router written from the statement (greedy literal > :param > *, empty segments skipped except a final one, root first, exact method > *). Paths without a leading slash: only one-handler-once-no-panic is required (segmentation undefined by the statement). Patterns without a leading slash are not generated.'),
  'C05': dict(engine='vstate+vsched', cat='model_checking', ref='4 (C05), 2.2, 2.3',
    technique='explicit-state BFS over request/registration histories on one real Mux with explicit pool choices, differential oracle against a fresh Mux; plus stateless model checking of 2-3 concurrent requests with race detection',
-   text='All histories to depth 4 (quick) / 6 (thorough) over 9 requests x 3 pool behaviours + late registration of a route with more parameters; in relay, route and no-route handlers the observation vector (route info, every parameter name that exists anywhere, RouteParamAny, initial status, request id read twice) must equal the one on a fresh Mux with the same routes; ids unique and constant. Concurrent part: all interleavings (unbounded for 2 clients x 2 requests) at pool get/put and the id counter, field-level race detection.',
+   text='All histories to depth 4 (quick) / 6 (thorough) over 9 requests x 3 pool behaviours + late registration of a route with more parameters; in relay, route and no-route handlers the observation vector (route info, every parameter name that exists anywhere, RouteParamAny, initial status, request id read twice) must equal the one on a fresh Mux with the same routes; ids unique within the Mux and constant during the request (no format is assumed). Concurrent part: all interleavings (unbounded for 2 clients x 2 requests) at pool get/put and the id counter, field-level race detection.',
    note=S_NOTE + ' The state key contains every pooled Store (names, values up to capacity, status, id length); the id counter is excluded (ids are checked along each path).'),
  'C01': dict(engine='vstate-style enumeration (vlogrun)', cat='model_checking', ref='4 (C01), 2.3, 2.4',
    technique='bounded exhaustive enumeration of inputs (all 1-/2-byte strings, all Unicode scalars) and of With/WithGroup chain x call-site attribute trees within a node budget, every record run through the real Logger+JsonHandler and judged by an independent ordered JSON reader and reference builder',
-   text='Every 1- and 2-byte string and every Unicode scalar as message, key and value (thorough: all three positions for scalars too); all 36 value kinds at 9 position classes x 5 levels x source on/off x 2 entry points; every (chain, call attributes) combination within the node budget (109 671 records quick). Each record must be one Write of one newline-terminated line that parses to time, level, [source = the harness call site], msg and exactly the expected ordered member tree.',
+   text='Every 1- and 2-byte string and every Unicode scalar as message, key and value (thorough: all three positions for scalars too); all 36 value kinds at 9 position classes x 5 levels x source on/off x 2 entry points; every (chain, call attributes) combination within the node budget (109 671 records quick). Each record must be one newline-terminated line (however many Write calls carry it: the subject of C02) that parses to time, level, [source = the harness call site], msg and exactly the expected ordered member tree.',
    note=LOG_NOTE),
  'C13': dict(engine='vstate-style enumeration (vlogrun)', cat='model_checking', ref='4 (C13), 2.3, 2.4',
    technique='bounded exhaustive enumeration as for C01 plus group names over arbitrary bytes and class-representative strings, judged by an independent key=value tokenizer (bare run or Go-quoted string) and the reference flattening to dotted paths',
-   text='Same generators as C01 against the Text handler, plus every 1-/2-byte string as WithGroup name and as group key and every string of <=3 representatives of 15 character classes (letter, space, =, quote, backslash, newline, DEL, NBSP, U+2028, zero-width, U+FFFD, invalid byte, tab, dot, non-ASCII) in message / key / group / value position. The line must tokenize unambiguously and unquote to exactly time, level, [source], msg and each leaf with its dotted path.',
+   text='Same generators as C01 against the Text handler, plus every 1-/2-byte string as WithGroup name and as group key and every string of <=3 representatives of 15 character classes (letter, space, =, quote, backslash, newline, DEL, NBSP, U+2028, zero-width, U+FFFD, invalid byte, tab, dot, non-ASCII) in message / key / group / value position. The line must tokenize unambiguously and unquote to exactly time, level, [source], msg and each leaf with its dotted path; strings, errors, text-marshalled values, integers and bools are compared exactly, floats / durations / times by what they denote, composite and nil values only as one token.',
    note=LOG_NOTE),
  'C03': dict(engine='vstate+vsched', cat='model_checking', ref='4 (C03), 2.2, 2.3',
    technique='explicit-state BFS over derivation trees of the real handlers with a differential oracle (isolated replay of each logger\'s own chain; call-site equivalence), plus stateless model checking of two concurrent derivers with race detection',
-   text='For each handler: all derivation trees of <=5 (thorough 6) loggers over 6 derivation kinds; after every derivation every existing logger is probed and must write byte-for-byte what a logger built alone from a fresh root by replaying its own chain writes, and structurally what a root logger given the With attributes at the call site writes. The aliasing precondition (parent with spare buffer capacity and >=2 children) is counted and must occur. Concurrent part: two goroutines deriving from a shared non-root parent and logging through child, parent and grandchild, all interleavings to the bound.',
+   text='For each handler: all derivation trees of <=5 (thorough 6) loggers over 6 derivation kinds; after every derivation every existing logger is probed and must write byte-for-byte what a logger built alone from a fresh root by replaying its own chain writes, and structurally what a root logger given the With attributes at the call site writes. The aliasing precondition (parent with spare buffer capacity and >=2 children) is counted where the handler layout allows. Concurrent part: two goroutines deriving from a shared non-root parent and logging through child, parent and grandchild, all interleavings to the bound.',
    note=S_NOTE),
  'C15': dict(engine='vsched + enumeration', cat='model_checking', ref='4 (C15), 2.2',
    technique='exhaustive enumeration of handler behaviours through the real Mux+Relay judged per log format, plus stateless model checking of 2-3 requests in flight',
-   text='Sequential part: 77 behaviours (11 write patterns x {no panic, panic after writing with 6 value kinds} + panic before writing x 6) x matched/no-route x 2 client address forms x 3 log handlers x 2 thresholds = 1992 requests; no panic escapes, the recorder sees 500 iff the handler panicked before writing, exactly one REQ_BEG/REQ_END (Info) with method, URI, client IP, the id the handler saw and the status the client received, exactly one Error record with the panic value and the same id. Concurrent part: 2 and 3 requests in flight for each log handler, all interleavings to the bound; records pair up by id.',
+   text='Sequential part: 77 behaviours (11 write patterns x {no panic, panic after writing with 6 value kinds} + panic before writing x 6) x matched/no-route x 2 client address forms x 3 log handlers x 2 thresholds = 1992 requests; no panic escapes, the recorder sees 500 iff the handler panicked before writing, exactly one REQ_BEG/REQ_END (Info) carrying method, URI, client IP, the id the handler saw and the status the client received, exactly one Error record with the panic value and the same id. Concurrent part: 2 and 3 requests in flight for each log handler, all interleavings to the bound; records pair up by id.',
    note=S_NOTE + ' Records are decoded by the JSON reader / text tokenizer / positionally (nano).'),
  'C16': dict(engine='enumeration', cat='exploration', ref='4 (C16), 2.4',
    technique='exhaustive enumeration of all strings up to length 5 over the 15-symbol alphabet against a POSIX word-splitting model, and up to length 4 (quick) / 5 (thorough) against the real dash and bash',
@@ -91,9 +91,9 @@ CHECKS = {
    text='111 scenarios (size x destination x alias x parent x source presence, CopyFile and MoveFile, real EXDEV between / and /dev/shm) x every single fault position incl. partial copies (about 600 runs quick; every pair of positions in thorough); byte-level snapshots before/after decide; the source may be removed only once the destination is complete (checked at the remove call).',
    note='Trusted base: the vos seam (engine/shim/vos) mounted over os/io calls of util/osutil by the instrumenter; real file systems.'),
  'C20': dict(engine='spin + real-process replay', cat='model_checking', ref='4 (C20), 2.5',
-   technique='Promela model of caller/launcher/daemon checked exhaustively by spin (no partial-order reduction), parameterised by the code (order of signal.Notify and cmd.Start read by AST); every reachable schedule class is obtained by reachability queries with replayed witness trails and then replayed on real processes through the verif pause points',
-   text='Model: all interleavings of 1 and 2 concurrent Launch calls (52 / 6509 states on the current tree), invariants: Launch ok => Done() happened, marker present, daemon alive, launcher gone; Done() happened and daemon alive => Launch ok. Classes = when Done() landed relative to the two pause points of the launcher; each class and the free race, for one and two concurrent launches (10 plans, 15 launches), is forced on real processes built with -tags verif: Launch must return the daemon pid only after Done(), the marker must exist, the daemon must stay alive and be orphaned, the launcher must be gone, and the real outcome must be one the model has for that class.',
-   note='Trusted base: spin 6.5, the Promela model (models/c20_daemon.pml), the AST reading of the Notify/Start order, the two pause points (hook commit, build tag verif), the OS. Inside a class the kernel schedules freely; no timeout is used as an oracle (a step exceeding 30 s is INFRA-ERROR).'),
+   technique='Promela model of caller/launcher/daemon checked exhaustively by spin (no partial-order reduction), parameterised by whether the SIGINT handler of the launcher is in place before cmd.Start (measured on the real processes, cross-checked against the source); every reachable schedule class is obtained by reachability queries with replayed witness trails and then replayed on real processes through the verif pause points',
+   text='Model: all interleavings of 1 and 2 concurrent Launch calls (52 / 6509 states on the current tree), invariants: Launch ok => Done() happened, marker present, daemon alive, launcher gone; Done() happened and daemon alive => Launch ok. Classes = when Done() landed relative to the two pause points of the launcher; each class and the free race, for one and two concurrent launches (10 plans, 15 launches), is forced on real processes built with -tags verif: Launch must return the daemon pid only after Done(), the marker must exist, the daemon must stay alive and be orphaned, the launcher must be gone, the real processes decide; an outcome the model does not have for a class is recorded as a conformance warning in the evidence.',
+   note='Trusted base: spin 6.5, the Promela model (models/c20_daemon.pml), the two pause points (hook commit, build tag verif), the OS. Inside a class the kernel schedules freely; no timeout is used as an oracle (a step exceeding 30 s is INFRA-ERROR).'),
 }
 
 NA_REASON = 'check not built yet (work in progress; see DESIGN.md section 4)'
